@@ -10,6 +10,7 @@ import Rare.Proofs.C19Vars
 import Rare.Proofs.C19IntText
 import Rare.Proofs.C11Log
 import Rare.Proofs.C19Trig
+import Rare.Proofs.C19TextVars
 import Rare.Gen.C19
 import Rare.Gen.Access
 /-!
@@ -1112,6 +1113,22 @@ theorem lookups_are_formula_variables (s : Bytes) (t : Tree) (e : Expr α) (h : 
     e.vars = t.vars (classify A) :=
   compile_vars A s t e h
 
+/-- **…and they can be read off the formula TEXT** (round 4c): `textVars` walks the token stream of the text (the
+    tokenizer specification `tok`): every literal token that denotes `[n]` / `[name]` / a bare name is one look-up,
+    a parenthesised group contributes the look-ups of its own text, operators and unary operators / function names
+    none.  That list, in text order, IS the list of look-ups `Eval` makes on what `Compile` built – for every
+    arithmetic and every formula that compiles; no parse tree is mentioned any more. -/
+theorem lookups_are_text_tokens (s : Bytes) (t : Tree) (e : Expr α) (h : compile A s = .ok (t, e)) :
+    e.vars = textVars tok (classify A) s := by
+  obtain ⟨htok, _, hd, _⟩ := parse_wellprec A s t e h
+  rw [compile_vars A s t e h]
+  exact (textVarsF_tree (classify A) _ s t (Nat.lt_succ_self _) htok hd).symm
+
+/-- `2*x + (y - [1])*abs([n1]) + 0x10(e) + sin(0)`: x, y, [1], n1, e – `abs`, `sin` and the constants are not
+    look-ups, `e` is a variable (there are no named constants). -/
+example : textVars tok (classify arithT) (ascii "2*x + (y - [1])*abs([n1]) + 0x10(e) + sin(0)") =
+    [.named (ascii "x"), .named (ascii "y"), .idx 1, .named (ascii "n1"), .named (ascii "e")] := by decide +kernel
+
 /-- …so `<BAD-TYPE>` is decided by the FORMULA TEXT and the context alone (strengthens
     `kfmath_badtype_iff`, which spoke about the compiled expression): the stage `{! s}` answers
     `<BAD-TYPE>` as soon as ONE variable occurrence of the parse of `s` is bound to a text `ParseFloat`
@@ -1295,6 +1312,23 @@ theorem trig_symmetries_f64 (L : Libm) (x : F64) :
   have e6 : ascii "atan" = [97, 116, 97, 110] := by decide +kernel
   simp only [e1, e2, e3, e4, e6, un_sin, un_cos, un_tan, un_asin, un_atan, un_neg]
   exact ⟨Trig.sin_neg x, Trig.tan_neg x, Trig.cos_neg x, fun hn => ⟨Trig.atan_neg x hn, Trig.asin_neg x hn⟩⟩
+
+/-- **`exp2` of an integer is exact**, for EVERY integer `n` from -1074 to 1023 (the whole range in which `2^n` is a
+    binary64 value): the reduction finds `k = n` and `r = 0`, the polynomial of `expmulti` answers exactly 1, and
+    `Ldexp(1, n)` is the float whose value is the rational `2^n` – exponent field `n + 1023` with an empty fraction
+    in the normal range, the single bit `n + 1074` in the subnormal range.  So `{! exp2(10)}` prints `1024`, not
+    `1023.9999999999999`, and `exp2(-1074)` is the smallest subnormal. -/
+theorem exp2_integer_exact (L : Libm) (n : Int) (h1 : -1074 ≤ n) (h2 : n ≤ 1023) :
+    (arith L).un (ascii "exp2") (ofInt n) =
+      ofSM false (if -1022 ≤ n then (n + 1023).toNat * 4503599627370496 else 2 ^ (n + 1074).toNat) ∧
+    ((arith L).un (ascii "exp2") (ofInt n)).toRat? = some (pow2Z n) := by
+  have e7 : ascii "exp2" = [101, 120, 112, 50] := by decide +kernel
+  rw [e7, un_exp2]
+  exact ⟨exp2_int_bits n h1 h2, exp2_int_val n h1 h2⟩
+
+/-- the hypotheses are satisfiable and the bounds are sharp: `exp2(-1075)` is 0 and `exp2(1024)` is +Inf. -/
+example : exp2 (ofInt (-1075)) = zeroP ∧ exp2 (ofInt 1024) = inf false ∧ exp2 (ofInt (-1074)) = ofSM false 1 ∧
+    exp2 (ofInt 1023) = ofSM false (2046 * 4503599627370496) := by decide +kernel
 
 /-- `4*atan(1)` is π bit for bit (0x400921FB54442D18) and so is `acos(-1)`; `sin(0)`, `cos(0)`, `exp2(10)`,
     `exp2(-1074)` (the smallest subnormal), `exp2(-1075)` (0) and `exp2(1024)` (+Inf); `asin(2)` is NaN; `sin(1e22)`
